@@ -552,6 +552,9 @@ fn judge_case(c: &VCase) -> Verdict {
     if c.actions.is_empty() || c.actions.len() > 3 || c.ops.is_empty() {
         return Verdict::discard("empty");
     }
+    if c.ops.iter().any(|o| (o.vk as usize) < c.actions.len() && akind(&c.actions, o.vk as usize) == 3 && matches!(o.what, What::Hold | What::HoldLong)) {
+        return Verdict::discard("hold-for-duration-on-an-on-idle-virtual-key");
+    }
     if c.ops.iter().any(|o| o.vk as usize >= c.actions.len()) {
         return Verdict::discard("vk-out-of-range");
     }
@@ -738,7 +741,11 @@ impl TypedProp for C18 {
                             10 => d + 8,
                             _ => t_idle + d + 12,
                         };
-                        VOp { gap, vk: vk % n, what }
+                        let vk = vk % n;
+                        // a virtual key whose action arms an on-idle gets no hold-for-duration (its own countdown
+                        // would run against the idle time it is waiting for)
+                        let what = if akind(&actions, vk as usize) == 3 && matches!(what, What::Hold | What::HoldLong) { What::Op(Kind::Tap, 0) } else { what };
+                        VOp { gap, vk, what }
                     })
                     .collect();
                 VCase { actions, d, t_idle, ops }
